@@ -27,6 +27,8 @@ def ref_outcomes(s, t):
     r = s[i:]
     if t == 'bool':
         if r[:1].isascii() and r[:1].isdigit():
+            if re.match(r'[0-9](\.[0-9]|[eE][+-]?[0-9])', r):
+                return {'exc:invalid_argument'}      # a float literal is not a boolean ("0.5", "1e5")
             if r[0] in '01' and not (len(r) > 1 and r[1].isascii() and r[1].isdigit()):
                 return {'ok:true' if r[0] == '1' else 'ok:false'}
             if r[0] == '0':   # 0 followed by digits: value may still be 0/1 ("01") - unpinned
@@ -50,7 +52,7 @@ def ref_outcomes(s, t):
             return {'exc:invalid_argument'}
         lit = m.group(0)
         rest = r[len(lit):]
-        frac = len(rest) >= 2 and rest[0] == '.' and rest[1].isascii() and rest[1].isdigit()
+        frac = (len(rest) >= 2 and rest[0] == '.' and rest[1].isascii() and rest[1].isdigit()) or bool(re.match(r'[eE][+-]?[0-9]', rest))     # a float literal (fraction or exponent)
         v = int(lit)
         if lit[0] == '-' and lo == 0:
             out = {'exc:invalid_argument', 'exc:out_of_range'}
